@@ -5,7 +5,7 @@
 
 using namespace phosg;
 
-VF_SECTION(concurrent_pairs, 16, 16, 300) {
+static std::vector<pp::Call> make_calls() {
   std::vector<pp::Call> calls;
   auto add = [&](const char* name, const char* group, std::function<std::string()> f) { calls.push_back({name, group, pp::guarded(f)}); };
   add("format_data_string(\"ab\\\\\\x00\\xFF\")", "format_data_string", [] { return format_data_string(std::string("ab\\\x00\xFF", 5)); });
@@ -20,7 +20,19 @@ VF_SECTION(concurrent_pairs, 16, 16, 300) {
   add("format_data(8 bytes vs prev, colour)", "format_data", [] { std::string p = "01234567"; return format_data(std::string("01x34y67"), 0, p.data(), PrintDataFlags::USE_COLOR | PrintDataFlags::PRINT_ASCII); });
   add("format_size(1536)", "format_size", [] { return format_size(1536); });
   add("parse_size(\"3.5 KB\")", "parse_size", [] { return std::to_string(parse_size("3.5 KB")); });
+  return calls;
+}
+
+VF_SECTION(concurrent_pairs, 16, 16, 300) {
+  std::vector<pp::Call> calls = make_calls();
   pp::run_pairs(r, calls, r.thorough() ? 400 : 150, r.thorough() ? 150 : 0);
   r.bound = "every unordered pair (and every call with itself) of 12 calls of format_data_string / parse_data_string / format_data / format_size / parse_size run concurrently: every schedule with <= 2 preemptions for same-function pairs with <= 150 (thorough 400) scheduling points per call (thorough: cross pairs <= 150 too), <= 1 preemption otherwise; basic-block granularity of Strings.cc";
+}
+
+// First calls: every same-function pair (thorough: every pair) with each schedule in a freshly forked process.
+VF_SECTION(concurrent_cold, 16, 16, 600) {
+  std::vector<pp::Call> calls = make_calls();
+  pp::run_pairs_cold(r, calls, r.thorough());
+  r.bound = "first calls: every same-function pair of the calls above and every call with itself (thorough: every pair), each schedule in a freshly forked process that has never called the library: every schedule with <= 1 preemption at basic-block granularity";
 }
 VF_MAIN()
